@@ -13,7 +13,9 @@ use crate::cli::run_async;
 use crate::gen;
 use crate::harness::Ctx;
 use crate::props::clonefam;
+use crate::props::preserve::{self, OutOp, Reusable};
 use crate::simio::{FileOp, SimFile};
+use bitar::ReorderOp;
 
 fn content(id: usize, size: usize) -> Vec<u8> {
     // distinct per identity even for equal sizes; never collides with garbage (0xEE..)
@@ -92,6 +94,30 @@ pub fn synthetic(ctx: &mut Ctx) {
     if ctx.want_sample {
         ctx.verdict.sample = Some(json!({"synthetic_layout": desc}));
     }
+    // the planner on its own (public API): the op list executed by a reference executor on a
+    // byte vector, with the during-the-run clause checked at every read of a source
+    {
+        let mut ci = clone_index.clone();
+        output_index.strip_chunks_already_in_place(&mut ci);
+        let ops = output_index.reorder_ops(&ci);
+        if let Some((class, text)) = planner_check(&ops, &prior, &chunks, &src_ids, &reusable, &source) {
+            let full: Vec<HashSum> = chunks.iter().map(|c| Chunk::from(c.clone()).verify().hash().clone()).collect();
+            let name = |h: &HashSum| full.iter().position(|f| f == h).map(|i| i.to_string()).unwrap_or_else(|| "?".into());
+            let plan: Vec<String> = ops
+                .iter()
+                .map(|o| match o {
+                    ReorderOp::Copy { hash, size, source, dest } => format!("Copy(id {} size {} from {} to {:?})", name(hash), size, source, dest),
+                    ReorderOp::StoreInMem { hash, size, source } => format!("StoreInMem(id {} size {} from {})", name(hash), size, source),
+                })
+                .collect();
+            ctx.fail(class, format!("{}; plan: {}; {}", text, plan.join(", "), desc));
+            return;
+        }
+        simkit::count("planner-op-lists-executed");
+        if ops.iter().any(|o| matches!(o, ReorderOp::StoreInMem { .. })) {
+            simkit::count("probe:planner-breaks-a-cycle-in-memory");
+        }
+    }
     let file = SimFile::drawn(prior.clone());
     let file2 = file.clone();
     let chunks2 = chunks.clone();
@@ -125,6 +151,50 @@ pub fn synthetic(ctx: &mut Ctx) {
             return;
         }
     };
+    // the during-the-run clause on the real executor: replay the log of the simulated file
+    {
+        let ops: Vec<OutOp> = file
+            .ops()
+            .into_iter()
+            .filter_map(|o| match o {
+                FileOp::Read { pos, len } => Some(OutOp::Read { pos, len }),
+                FileOp::Write { pos, data } => Some(OutOp::Write { pos, data }),
+                _ => None,
+            })
+            .collect();
+        let mut table = Vec::new();
+        for &id in &reusable {
+            let mut locs = Vec::new();
+            let mut off = 0u64;
+            for (item, gsize) in &prior_items {
+                match item {
+                    Some(i) => {
+                        if *i == id {
+                            locs.push(off);
+                        }
+                        off += chunks[*i].len() as u64;
+                    }
+                    None => off += *gsize as u64,
+                }
+            }
+            let mut dests = Vec::new();
+            let mut off = 0u64;
+            for &i in &src_ids {
+                if i == id {
+                    dests.push(off);
+                }
+                off += chunks[i].len() as u64;
+            }
+            table.push(Reusable { id, content: chunks[id].clone(), locs, dests });
+        }
+        // identities of equal content (same size drawn twice gives different bytes, so none) --
+        let (v, n) = preserve::monitor(&prior, &ops, &table, true);
+        simkit::count_n("preservation-checks", n);
+        if let Some(v) = v {
+            ctx.fail("reusable-chunk-destroyed", format!("{}; {}", v.text, desc));
+            return;
+        }
+    }
     let out = file.contents();
     if out.len() < source.len() || out[..source.len()] != source[..] {
         ctx.fail(
@@ -151,4 +221,91 @@ pub fn synthetic(ctx: &mut Ctx) {
     }
     ctx.verdict.shape = h;
     simkit::count("synthetic-layout");
+}
+
+/// Executes a planner op list on a byte vector. Every source a `Copy` or `StoreInMem` reads must
+/// still hold the chunk it names (nothing reusable is destroyed before it has been copied or
+/// buffered); afterwards every destination of every reusable identity holds it.
+fn planner_check(
+    ops: &[ReorderOp],
+    prior: &[u8],
+    chunks: &[Vec<u8>],
+    src_ids: &[usize],
+    reusable: &std::collections::BTreeSet<usize>,
+    source: &[u8],
+) -> Option<(&'static str, String)> {
+    let full: Vec<HashSum> = chunks.iter().map(|c| Chunk::from(c.clone()).verify().hash().clone()).collect();
+    let ident = |h: &HashSum| full.iter().position(|f| f == h);
+    let mut file = prior.to_vec();
+    // identity -> (bytes read, None if they were the chunk / Some(complaint) if the place had
+    // been overwritten by then). A read of an overwritten place is a violation only once its
+    // bytes are used: the planner is free to emit a useless StoreInMem for a chunk whose copies
+    // are all done (it does: a chunk that overlaps its own destination and is met again later).
+    let mut mem: std::collections::HashMap<usize, (Vec<u8>, Option<String>)> = std::collections::HashMap::new();
+    let read = |file: &Vec<u8>, what: &str, n: usize, hash: &HashSum, size: usize, source_off: u64| -> Result<(usize, Vec<u8>, Option<String>), (&'static str, String)> {
+        let Some(id) = ident(hash) else {
+            return Err(("planner-unknown-chunk", format!("op {} ({}) names a chunk that is none of the scenario's identities", n, what)));
+        };
+        let (a, b) = (source_off as usize, source_off as usize + size);
+        if size != chunks[id].len() || b > file.len() {
+            return Err(("planner-bad-extent", format!("op {} ({}) reads {} bytes at {} for identity {} of {} bytes in a file of {}", n, what, size, source_off, id, chunks[id].len(), file.len())));
+        }
+        let stale = if file[a..b] != chunks[id][..] {
+            Some(format!("op {} ({}) reads identity {} at {} but an earlier op of the plan has overwritten it there", n, what, id, source_off))
+        } else {
+            None
+        };
+        Ok((id, file[a..b].to_vec(), stale))
+    };
+    for (n, op) in ops.iter().enumerate() {
+        match op {
+            ReorderOp::Copy { hash, size, source: so, dest } => {
+                let (id, data, stale) = match ident(hash).and_then(|id| mem.remove(&id).map(|(d, s)| (id, d, s))) {
+                    Some(x) => x,
+                    None => match read(&file, "Copy", n, hash, *size, *so) {
+                        Ok(x) => x,
+                        Err(e) => return Some(e),
+                    },
+                };
+                if let (Some(stale), false) = (&stale, dest.is_empty()) {
+                    return Some(("planner-copies-destroyed-chunk", format!("{}, and op {} writes those bytes to {:?}: the chunk was destroyed before it was copied or buffered", stale, n, dest)));
+                }
+                for &d in dest {
+                    let (a, b) = (d as usize, d as usize + data.len());
+                    if b > source.len() || source[a..b] != chunks[id][..] {
+                        return Some(("planner-wrong-destination", format!("op {} copies identity {} to {} where the source does not have it", n, id, d)));
+                    }
+                    if file.len() < b {
+                        file.resize(b, 0);
+                    }
+                    file[a..b].copy_from_slice(&data);
+                }
+            }
+            ReorderOp::StoreInMem { hash, size, source: so } => {
+                if let Some(id) = ident(hash) {
+                    if mem.contains_key(&id) {
+                        continue;
+                    }
+                }
+                match read(&file, "StoreInMem", n, hash, *size, *so) {
+                    Ok((id, data, stale)) => {
+                        if stale.is_some() {
+                            simkit::count("planner-useless-store-of-a-finished-chunk");
+                        }
+                        mem.insert(id, (data, stale));
+                    }
+                    Err(e) => return Some(e),
+                }
+            }
+        }
+    }
+    let mut off = 0usize;
+    for &id in src_ids {
+        let len = chunks[id].len();
+        if reusable.contains(&id) && (file.len() < off + len || file[off..off + len] != chunks[id][..]) {
+            return Some(("planner-incomplete", format!("after the plan's {} ops the reusable identity {} is not at its destination {}", ops.len(), id, off)));
+        }
+        off += len;
+    }
+    None
 }
